@@ -390,299 +390,166 @@ Proof.
 Qed.
 
 (* ------------------------------------------------------------------ *)
-(* 4. the main invariant: all interleavings, all crash points          *)
+(* 4. hostnames table and the span-hosts list (all interleavings,      *)
+(*    all crash points)                                                *)
 (* ------------------------------------------------------------------ *)
+Lemma infos_new_rows al : infos (map new_row al) = al.
+Proof. induction al as [|x al IH]; cbn; [reflexivity | now f_equal]. Qed.
+
+Lemma infos_add_many l t : infos (add_many l t) = infos t ++ added l t.
+Proof.
+  destruct (add_many_added l t) as [E _]. rewrite E at 1. unfold infos at 1. rewrite map_app.
+  fold (infos t). fold (infos (map new_row (added l t))). now rewrite infos_new_rows.
+Qed.
+
+Lemma urls_add_many l t : urls (add_many l t) = urls t ++ map ri_url (added l t).
+Proof. now rewrite !urls_infos, infos_add_many, map_app. Qed.
+
+Lemma added_incl l t i : In i (added l t) -> In i l.
+Proof. destruct (add_many_added l t) as [_ H]. apply H. Qed.
+
+Lemma added_cover l t i : In i l -> In (ri_url i) (urls t) \/ exists i', In i' (added l t) /\ ri_url i' = ri_url i.
+Proof.
+  intros Hi. pose proof (add_many_covers l t i Hi) as C. rewrite urls_add_many in C.
+  apply in_app_or in C. destruct C as [C|C]; [now left | right].
+  apply in_map_iff in C. destruct C as [i' [E Hi']]. eauto.
+Qed.
+
 Section Inv.
   Variable site : url -> page.
-  Variable in_scope : bool -> url -> rinfo -> N -> bool.
+  Variable host : url -> N.
+  Variable in_scope : list N -> bool -> url -> rinfo -> N -> bool.
   Variable maxredir : nat.
   Variable starts : list url.
   Variable conc : nat.
 
-  Notation plan := (plan site in_scope maxredir).
-  Notation kids := (kids site in_scope maxredir).
-  Notation fire := (fire site in_scope maxredir starts conc).
-  Notation step := (step site in_scope maxredir starts conc).
-  Notation reach := (reach site in_scope maxredir starts conc).
+  (* the span-hosts list a fresh crawl of [starts] works with *)
+  Definition sp0 : list N := map host starts.
 
-  (* what an in-flight item knows / owes *)
-  Definition item_ok (t : table) (it : item) : Prop :=
-    (exists r, In r t /\ r_info r = it_info it /\ r_status r = InProgress /\ r_tries r = it_tries it) /\
-    (exists did a more st, plan (it_info it) (it_tries it) = did ++ it_todo it /\ it_todo it = a :: more /\
-                  it_todo it = removelast (it_todo it) ++ [ACheckIn st] /\ checked_in st /\
-                  forallb (fun a => negb (is_checkin a)) (removelast (it_todo it)) = true /\
-                  forall ci, In ci (adds_of did) -> In (ri_url ci) (urls t)).
+  Notation fire := (fire site host in_scope maxredir starts conc).
+  Notation step := (step site host in_scope maxredir starts conc).
+  Notation reach := (reach site host in_scope maxredir starts conc).
 
-  Record Inv (s : state) : Prop := {
-    inv_nodup : NoDup (urls (st_tbl s));
-    inv_down : st_mode s <> Running -> st_items s = [];
-    inv_starting : st_mode s = Starting -> forall r, In r (st_tbl s) -> r_status r <> InProgress;
-    inv_owner : st_mode s = Running -> forall r, In r (st_tbl s) -> r_status r = InProgress ->
-                exists it, In it (st_items s) /\ it_info it = r_info r;
-    inv_items : forall it, In it (st_items s) -> item_ok (st_tbl s) it;
-    inv_items_nodup : NoDup (map it_url (st_items s));
-    (* parent checked in  =>  every child its visit admitted is in the table (C03) *)
-    inv_nothing_lost : forall r, In r (st_tbl s) -> checked_in (r_status r) ->
-                exists t, r_tries r = t + 1 /\ forall ci, In ci (kids (r_info r) t) -> In (ri_url ci) (urls (st_tbl s))
+  Lemma In_hosts_after l t hs h :
+    In h (hosts_after host l t hs) <-> In h hs \/ exists i, In i (added l t) /\ ri_level i = 0 /\ host (ri_url i) = h.
+  Proof.
+    unfold hosts_after. rewrite fold_add_host_In. split; (intros [H|H]; [now left | right]).
+    - apply in_map_iff in H. destruct H as [i [E Hi]]. apply filter_In in Hi. destruct Hi as [Hi L].
+      apply N.eqb_eq in L. eauto.
+    - destruct H as [i [Hi [L E]]]. apply in_map_iff. exists i. split; [assumption|]. apply filter_In.
+      split; [assumption | now apply N.eqb_eq].
+  Qed.
+
+  Record InvH (s : state) : Prop := {
+    ih_hosts : forall h, In h (st_hosts s) <->
+                 exists i, In i (infos (st_tbl s)) /\ ri_level i = 0 /\ host (ri_url i) = h;
+    ih_lvl0 : forall i, In i (infos (st_tbl s)) -> ri_level i = 0 -> i = start_info (ri_url i) /\ In (ri_url i) starts;
+    ih_starts0 : (st_tbl s = [] /\ st_hosts s = []) \/ (forall u, In u starts -> In (start_info u) (infos (st_tbl s)));
+    ih_running : st_mode s = Running ->
+                 (forall u, In u starts -> In (start_info u) (infos (st_tbl s))) /\ (forall h, In h (st_span s) <-> In h sp0);
+    ih_items : forall it, In it (st_items s) -> forall l, In (AAddMany l) (it_todo it) -> forall i, In i l -> ri_level i <> 0
   }.
 
-  Lemma adds_of_app a b : adds_of (a ++ b) = adds_of a ++ adds_of b.
+  Lemma InvH_init : InvH init.
   Proof.
-    induction a as [|x a IH]; cbn; [reflexivity|]. destruct x; cbn; try assumption. now rewrite IH, app_assoc.
+    constructor; cbn; try (intros; contradiction); try discriminate; auto.
+    intros h. split; [intros [] | intros [i [[] _]]].
   Qed.
 
-  Lemma removelast_snoc {A} (l : list A) x : removelast (l ++ [x]) = l.
-  Proof. now rewrite removelast_last. Qed.
-
-  (* the plan of a fresh item satisfies the item invariant's plan part *)
-  Lemma plan_item_ok p tries :
-    exists a more st, plan p tries = a :: more /\ plan p tries = removelast (plan p tries) ++ [ACheckIn st] /\
-      checked_in st /\ forallb (fun a => negb (is_checkin a)) (removelast (plan p tries)) = true.
+  (* an add_many of rows of level > 0 changes neither the hostnames nor the level-0 rows *)
+  Lemma hosts_after_kids l t hs : (forall i, In i l -> ri_level i <> 0) -> forall h, In h (hosts_after host l t hs) <-> In h hs.
   Proof.
-    destruct (plan_shape site in_scope maxredir p tries) as [pre [st [E [H C]]]].
-    rewrite E. rewrite removelast_snoc.
-    destruct pre as [|a pre']; cbn [app]; eauto 8.
+    intros L h. rewrite In_hosts_after. split; [|now left]. intros [H|[i [Hi [L0 _]]]]; [assumption|].
+    exfalso. apply (L i); [now apply (added_incl l t) | assumption].
   Qed.
 
-  (* if the next action is a check-in it is the last one; otherwise the rest keeps the shape *)
-  Lemma todo_tail a more st :
-    a :: more = removelast (a :: more) ++ [ACheckIn st] ->
-    forallb (fun x => negb (is_checkin x)) (removelast (a :: more)) = true ->
-    (more = [] /\ a = ACheckIn st) \/
-    (is_checkin a = false /\ more <> [] /\ more = removelast more ++ [ACheckIn st] /\
-     forallb (fun x => negb (is_checkin x)) (removelast more) = true).
+  Lemma InvH_step s s' : InvH s -> step s s' -> InvH s'.
   Proof.
-    destruct more as [|b more'].
-    - cbn. intros [= ->] _. now left.
-    - intros E F. right. change (removelast (a :: b :: more')) with (a :: removelast (b :: more')) in *.
-      cbn [app forallb] in *. inversion E as [E']. apply andb_prop in F. destruct F as [Fa F].
-      split; [now destruct a|]. split; [discriminate|]. split; assumption.
-  Qed.
-
-  Lemma upd_other r u f t : In r t -> r_url r <> u -> In r (upd u f t).
-  Proof. intros H N. apply In_upd. exists r. split; [assumption|]. apply N.eqb_neq in N. now rewrite N. Qed.
-
-  Lemma upd_self r u f t : In r t -> r_url r = u -> In (f r) (upd u f t).
-  Proof. intros H E. apply In_upd. exists r. split; [assumption|]. apply N.eqb_eq in E. now rewrite E. Qed.
-
-  Lemma upd_cases t r0 u f r' : NoDup (urls t) -> In r0 t -> r_url r0 = u -> In r' (upd u f t) ->
-    r' = f r0 \/ (In r' t /\ r_url r' <> u).
-  Proof.
-    intros ND H0 E0 H. apply In_upd in H. destruct H as [r [Hr ->]].
-    destruct (r_url r =? u) eqn:E.
-    - apply N.eqb_eq in E. left. f_equal. apply (nodup_url_eq t); congruence.
-    - apply N.eqb_neq in E. right. split; assumption.
-  Qed.
-
-  Lemma item_ok_transfer t t' it :
-    item_ok t it ->
-    (forall r, In r t -> r_info r = it_info it -> In r t') ->
-    (forall u, In u (urls t) -> In u (urls t')) ->
-    item_ok t' it.
-  Proof.
-    intros [[r [Hr [Ei [Es Et]]]] [did [a [more [st [P [T [L [C [F A]]]]]]]]]] Hrow Hurls. split.
-    - exists r. auto.
-    - exists did, a, more, st. repeat split; auto.
-  Qed.
-
-  Lemma item_ok_started t it : item_ok t it -> item_ok t (set_started it).
-  Proof. intros H. exact H. Qed.
-
-  Lemma Inv_init : Inv init.
-  Proof.
-    constructor; cbn; try (intros; contradiction); try constructor; try discriminate; auto.
-  Qed.
-
-  Lemma item_row_unique s it r :
-    Inv s -> In it (st_items s) -> In r (st_tbl s) -> r_url r = it_url it ->
-    r_info r = it_info it /\ r_status r = InProgress /\ r_tries r = it_tries it.
-  Proof.
-    intros I Hi Hr E. destruct (inv_items s I it Hi) as [[r0 [H0 [Ei [Es Et]]]] _].
-    assert (r = r0) as ->; [|auto].
-    apply (nodup_url_eq (st_tbl s)); auto using inv_nodup. unfold r_url. rewrite Ei. exact E.
-  Qed.
-
-  Lemma Inv_step s s' : Inv s -> step s s' -> Inv s'.
-  Proof.
-    intros I [l H]. destruct l; cbn [fire] in H.
+    intros I [l H]. destruct l; cbn [Engine.fire] in H.
     - (* checkout *)
       destruct (st_mode s) eqn:M; try discriminate.
       destruct (pick (st_tbl s)) as [r|] eqn:P; [|discriminate]. inversion H; subst s'; clear H.
-      apply pick_some in P. destruct P as [Hr St].
-      assert (Hfree : forall it, In it (st_items s) -> it_url it <> r_url r).
-      { intros it Hi E. destruct (item_row_unique s it r I Hi Hr (eq_sym E)) as [_ [C _]]. destruct St; congruence. }
-      constructor; cbn.
-      + rewrite urls_upd; auto with eng. apply inv_nodup; assumption.
-      + congruence.
-      + discriminate.
-      + intros _ r' Hr' S'. apply (upd_cases _ r) in Hr'; auto using inv_nodup.
-        destruct Hr' as [-> | [Hr' N]].
-        * eexists. split; [apply in_or_app; right; left; reflexivity|]. reflexivity.
-        * destruct (inv_owner s I M r' Hr' S') as [it [Hi E]]. exists it. split; [apply in_or_app; now left | assumption].
-      + intros it Hi. apply in_app_or in Hi. destruct Hi as [Hi | [<- | []]].
-        * apply (item_ok_transfer (st_tbl s)); [now apply inv_items | | ].
-          -- intros r0 H0 E0. apply upd_other; [assumption|]. intros C. apply (Hfree it Hi). unfold it_url. rewrite <- E0. exact C.
-          -- intros u. now rewrite urls_upd by auto with eng.
-        * split.
-          -- exists (set_status InProgress r). repeat split. now apply upd_self.
-          -- cbn. destruct (plan_item_ok (r_info r) (r_tries r)) as [a [more [st [E1 [E2 [C F]]]]]].
-             exists [], a, more, st. cbn. repeat split; auto. intros ci [].
-      + rewrite map_app. cbn. apply NoDup_snoc; [apply inv_items_nodup; assumption|].
-        intros C. apply in_map_iff in C. destruct C as [it [E Hi]]. now apply (Hfree it Hi).
-      + intros r' Hr' C. apply (upd_cases _ r) in Hr'; auto using inv_nodup.
-        destruct Hr' as [-> | [Hr' N]].
-        * exfalso. destruct C as [C|[C|C]]; discriminate.
-        * destruct (inv_nothing_lost s I r' Hr' C) as [t [Et Hk]]. exists t. split; [assumption|].
-          intros ci Hci. rewrite urls_upd by auto with eng. now apply Hk.
+      destruct I as [Ih Il Is Ir Ii]. constructor; cbn; rewrite ?infos_upd by auto with eng; auto.
+      + right. apply (proj1 (Ir M)).
+      + intros it Hi. apply in_app_or in Hi. destruct Hi as [Hi|[<-|[]]]; [now apply Ii|].
+        cbn. intros l Hl i Hi'. eapply plan_adds_level; eauto.
     - (* start *)
       destruct (st_mode s) eqn:M; try discriminate.
       destruct (n_started (st_items s) <? conc)%nat; [|discriminate].
       destruct (start_first (st_items s)) as [its|] eqn:SF; [|discriminate]. inversion H; subst s'; clear H.
       apply start_first_inv in SF. destruct SF as [l1 [it [l2 [E [Sf [E' _]]]]]].
-      assert (Hin : forall x, In x its -> exists y, In y (st_items s) /\ it_info x = it_info y /\ it_tries x = it_tries y /\ it_todo x = it_todo y).
-      { intros x Hx. rewrite E' in Hx. rewrite E. apply in_app_or in Hx. destruct Hx as [Hx|[<-|Hx]].
-        - exists x. split; [apply in_or_app; now left | auto].
-        - exists it. split; [apply in_or_app; right; now left | auto].
-        - exists x. split; [apply in_or_app; right; now right | auto]. }
-      constructor; cbn.
-      + apply inv_nodup; assumption.
-      + congruence.
-      + discriminate.
-      + intros _ r Hr Sr. destruct (inv_owner s I M r Hr Sr) as [y [Hy Ey]].
-        rewrite E in Hy. rewrite E'. apply in_app_or in Hy. destruct Hy as [Hy|[<-|Hy]].
-        * exists y. split; [apply in_or_app; now left | assumption].
-        * exists (set_started it). split; [apply in_or_app; right; now left | assumption].
-        * exists y. split; [apply in_or_app; right; now right | assumption].
-      + intros x Hx. destruct (Hin x Hx) as [y [Hy [E1 [E2 E3]]]]. pose proof (inv_items s I y Hy) as Ok.
-        unfold item_ok in *. rewrite E1, E2, E3. exact Ok.
-      + replace (map it_url its) with (map it_url (st_items s)); [apply inv_items_nodup; assumption|].
-        rewrite E, E'. rewrite !map_app. reflexivity.
-      + apply inv_nothing_lost; assumption.
+      destruct I as [Ih Il Is Ir Ii]. constructor; cbn; auto.
+      intros x Hx. rewrite E' in Hx. apply in_app_or in Hx. destruct Hx as [Hx|[<-|Hx]].
+      + apply Ii. rewrite E. apply in_or_app. now left.
+      + cbn. apply Ii. rewrite E. apply in_or_app. right. now left.
+      + apply Ii. rewrite E. apply in_or_app. right. now right.
     - (* act *)
       destruct (st_mode s) eqn:M; try discriminate.
       destruct (act_items n (st_items s)) as [[[it a] its]|] eqn:A; [|discriminate]. inversion H; subst s'; clear H.
       apply act_items_inv in A. destruct A as [l1 [l2 [more [E [Sf [T [E' _]]]]]]].
+      destruct I as [Ih Il Is Ir Ii].
       assert (Hit : In it (st_items s)) by (rewrite E; apply in_or_app; right; now left).
-      pose proof (inv_items s I it Hit) as Ok.
-      destruct Ok as [[r0 [H0 [Ei [Es Et]]]] [did [a0 [more0 [st [P [T0 [L [C [F Ad]]]]]]]]]].
-      rewrite T in T0. inversion T0; subst a0 more0; clear T0.
-      assert (U0 : r_url r0 = it_url it) by (unfold r_url, it_url; now rewrite Ei).
-      pose proof (inv_items_nodup s I) as NDi. rewrite E, map_app in NDi. cbn in NDi.
-      assert (Hother : forall x, In x l1 \/ In x l2 -> In x (st_items s) /\ it_url x <> it_url it).
-      { intros x Hx. split.
-        - rewrite E. apply in_or_app. destruct Hx; [now left | right; now right].
-        - intros Ex. apply NoDup_remove_2 in NDi. apply NDi. rewrite <- Ex. apply in_or_app.
-          destruct Hx; [left | right]; now apply in_map. }
-      rewrite T in L, F.
-      destruct (todo_tail a more st L F) as [[-> ->] | [Na [Nm [Lm Fm]]]].
-      + (* check-in: the item is finished *)
-        cbn [app] in E'. cbn [apply_tbl apply_log].
+      assert (Hits : forall x, In x its -> forall l, In (AAddMany l) (it_todo x) -> forall i, In i l -> ri_level i <> 0).
+      { intros x Hx. rewrite E' in Hx. apply in_app_or in Hx. destruct Hx as [Hx|Hx]; [|apply in_app_or in Hx; destruct Hx as [Hx|Hx]].
+        - apply Ii. rewrite E. apply in_or_app. now left.
+        - destruct more as [|b more']; [destruct Hx|]. destruct Hx as [<-|[]]. cbn. intros l Hl. apply (Ii it Hit).
+          rewrite T. now right.
+        - apply Ii. rewrite E. apply in_or_app. right. now right. }
+      destruct a as [q ini|c|k|st]; cbn [apply_tbl apply_hosts].
+      + constructor; cbn; auto.
+      + constructor; cbn; rewrite ?infos_upd by auto with eng; auto.
+        right. apply (proj1 (Ir M)).
+      + assert (Lk : forall i, In i k -> ri_level i <> 0) by (apply (Ii it Hit); rewrite T; now left).
+        assert (Hnew : forall i, In i (infos (add_many k (st_tbl s))) -> In i (infos (st_tbl s)) \/ (In i k /\ ri_level i <> 0)).
+        { intros i Hi. rewrite infos_add_many in Hi. apply in_app_or in Hi. destruct Hi as [Hi|Hi]; [now left|right].
+          apply added_incl in Hi. auto. }
         constructor; cbn.
-        * rewrite urls_upd; auto with eng. apply inv_nodup; assumption.
-        * congruence.
-        * discriminate.
-        * intros _ r' Hr' S'. apply (upd_cases _ r0) in Hr'; auto using inv_nodup.
-          destruct Hr' as [-> | [Hr' N]].
-          -- exfalso. cbn in S'. destruct C as [C|[C|C]]; congruence.
-          -- destruct (inv_owner s I M r' Hr' S') as [y [Hy Ey]]. exists y. split; [|assumption].
-             rewrite E in Hy. rewrite E'. apply in_app_or in Hy. apply in_or_app.
-             destruct Hy as [Hy|[<-|Hy]]; auto. exfalso. apply N. unfold r_url. rewrite <- Ey. reflexivity.
-        * intros x Hx. rewrite E' in Hx. apply in_app_or in Hx. destruct (Hother x Hx) as [Hxs Nx].
-          apply (item_ok_transfer (st_tbl s)); [now apply inv_items | | ].
-          -- intros r1 H1 E1. apply upd_other; [assumption|]. intros Cx. apply Nx. unfold it_url. rewrite <- E1. exact Cx.
-          -- intros u. now rewrite urls_upd by auto with eng.
-        * rewrite E', map_app. now apply NoDup_remove_1 in NDi.
-        * intros r' Hr' C'. apply (upd_cases _ r0) in Hr'; auto using inv_nodup.
-          destruct Hr' as [-> | [Hr' N]].
-          -- exists (it_tries it). split; [cbn; now rewrite Et|]. intros ci Hci. rewrite urls_upd by auto with eng.
-             apply Ad. cbn [r_info checkin] in Hci. rewrite Ei in Hci. unfold kids in Hci. rewrite P, T, adds_of_app in Hci.
-             cbn in Hci. now rewrite app_nil_r in Hci.
-          -- destruct (inv_nothing_lost s I r' Hr' C') as [t [Et' Hk]]. exists t. split; [assumption|].
-             intros ci Hci. rewrite urls_upd by auto with eng. now apply Hk.
-      + (* any other action: the item stays *)
-        assert (E'' : its = l1 ++ set_todo more it :: l2) by (rewrite E'; destruct more; [congruence|reflexivity]).
-        clear E'.
-        assert (Hurls : forall u, In u (urls (st_tbl s)) -> In u (urls (apply_tbl (it_url it) a (st_tbl s)))).
-        { intros u Hu. destruct a; cbn; try assumption; try (rewrite urls_upd; auto with eng). now apply add_many_incl. }
-        assert (Hrows : forall r, In r (st_tbl s) -> r_url r <> it_url it -> In r (apply_tbl (it_url it) a (st_tbl s))).
-        { intros r Hr N. destruct a; cbn; try assumption; try (now apply upd_other). now apply add_many_keeps. }
-        assert (Hnd : NoDup (urls (apply_tbl (it_url it) a (st_tbl s)))).
-        { destruct a; cbn; try (rewrite urls_upd; auto with eng); try (apply add_many_nodup); apply inv_nodup; assumption. }
-        assert (Hback : forall r', In r' (apply_tbl (it_url it) a (st_tbl s)) ->
-                  (In r' (st_tbl s) /\ r_url r' <> it_url it) \/ (r_status r' = Todo) \/
-                  (r_info r' = r_info r0 /\ r_status r' = InProgress /\ r_tries r' = r_tries r0)).
-        { intros r' Hr'. destruct a; cbn in Hr'.
-          - destruct (N.eq_dec (r_url r') (it_url it)) as [Eq|Ne]; [|left; auto].
-            right; right. assert (r' = r0) as -> by (apply (nodup_url_eq (st_tbl s)); auto using inv_nodup; congruence). auto.
-          - apply (upd_cases _ r0) in Hr'; auto using inv_nodup. destruct Hr' as [-> | ?]; [right; right; auto | left; auto].
-          - apply add_many_In in Hr'. destruct Hr' as [Hr' | [i [_ ->]]]; [|right; left; reflexivity].
-            destruct (N.eq_dec (r_url r') (it_url it)) as [Eq|Ne]; [|left; auto].
-            right; right. assert (r' = r0) as -> by (apply (nodup_url_eq (st_tbl s)); auto using inv_nodup; congruence). auto.
-          - discriminate. }
-        constructor; cbn.
-        * exact Hnd.
-        * congruence.
-        * discriminate.
-        * intros _ r' Hr' S'. destruct (Hback r' Hr') as [[Hold N] | [St | [Ei' _]]].
-          -- destruct (inv_owner s I M r' Hold S') as [y [Hy Ey]]. exists y. split; [|assumption].
-             rewrite E in Hy. rewrite E''. apply in_app_or in Hy. apply in_or_app.
-             destruct Hy as [Hy|[<-|Hy]]; [now left | | right; now right]. exfalso. apply N. unfold r_url. rewrite <- Ey. reflexivity.
-          -- congruence.
-          -- exists (set_todo more it). split; [rewrite E''; apply in_or_app; right; now left|]. cbn. congruence.
-        * intros x Hx. rewrite E'' in Hx. apply in_app_or in Hx.
-          assert (Hx' : x = set_todo more it \/ (In x l1 \/ In x l2)) by (destruct Hx as [?|[<-|?]]; auto).
-          clear Hx. destruct Hx' as [-> | Hx].
-          -- split.
-             ++ cbn. destruct a; cbn.
-                ** exists r0. auto.
-                ** exists (set_code c r0). repeat split; auto. now apply upd_self.
-                ** exists r0. repeat split; auto. now apply add_many_keeps.
-                ** discriminate.
-             ++ cbn. destruct more as [|b more']; [congruence|].
-                exists (did ++ [a]), b, more', st. repeat split; auto.
-                ** rewrite <- app_assoc. cbn. now rewrite <- T.
-                ** intros ci Hci. rewrite adds_of_app in Hci. apply in_app_or in Hci. destruct Hci as [Hci|Hci]; [now apply Hurls, Ad|].
-                   destruct a; cbn in Hci; try contradiction. rewrite app_nil_r in Hci. cbn. now apply add_many_covers.
-          -- destruct (Hother x Hx) as [Hxs Nx].
-             apply (item_ok_transfer (st_tbl s)); [now apply inv_items | | exact Hurls].
-             intros r1 H1 E1. apply Hrows; [assumption|]. intros Cx. apply Nx. unfold it_url. rewrite <- E1. exact Cx.
-        * rewrite E'', map_app. cbn. exact NDi.
-        * intros r' Hr' C'. destruct (Hback r' Hr') as [[Hold N] | [St | [_ [St _]]]].
-          -- destruct (inv_nothing_lost s I r' Hold C') as [t [Et' Hk]]. exists t. split; [assumption|].
-             intros ci Hci. apply Hurls. now apply Hk.
-          -- exfalso. destruct C' as [C'|[C'|C']]; congruence.
-          -- exfalso. destruct C' as [C'|[C'|C']]; congruence.
+        * intros h. rewrite hosts_after_kids by assumption. rewrite Ih. split; intros [i [Hi [L0 Eh]]].
+          -- exists i. split; [|auto]. rewrite infos_add_many. apply in_or_app. now left.
+          -- exists i. split; [|auto]. destruct (Hnew i Hi) as [?|[_ C]]; [assumption | contradiction].
+        * intros i Hi L0. destruct (Hnew i Hi) as [Hold|[_ C]]; [now apply Il | contradiction].
+        * destruct (Ir M) as [Ir1 _]. right. intros u Hu. rewrite infos_add_many. apply in_or_app. left. now apply Ir1.
+        * intros _. destruct (Ir M) as [Ir1 Ir2]. split; [|assumption].
+          intros u Hu. rewrite infos_add_many. apply in_or_app. left. now apply Ir1.
+        * exact Hits.
+      + constructor; cbn; rewrite ?infos_upd by auto with eng; auto.
+        right. apply (proj1 (Ir M)).
     - (* crash *)
-      inversion H; subst s'; clear H. constructor; cbn; try congruence; try discriminate; try apply NoDup_nil.
-      + apply inv_nodup; assumption.
-      + intros it [].
-      + apply inv_nothing_lost; assumption.
+      inversion H; subst s'; clear H. destruct I as [Ih Il Is Ir Ii]. constructor; cbn; auto; try discriminate.
+      all: try (intros it []).
     - (* release *)
       destruct (st_mode s) eqn:M; try discriminate. inversion H; subst s'; clear H.
-      constructor; cbn; try congruence; try discriminate; try apply NoDup_nil.
-      + rewrite urls_release. apply inv_nodup; assumption.
-      + intros _ r' Hr'. apply In_release in Hr'. destruct Hr' as [r [Hr ->]].
-        destruct (status_eqb (r_status r) InProgress) eqn:Sx; [discriminate|].
-        intros Cx. apply status_eqb_eq in Cx. congruence.
-      + intros it [].
-      + intros r' Hr' C'. apply In_release in Hr'. destruct Hr' as [r [Hr ->]].
-        destruct (status_eqb (r_status r) InProgress) eqn:Sx.
-        * exfalso. destruct C' as [C'|[C'|C']]; discriminate.
-        * destruct (inv_nothing_lost s I r Hr C') as [t [Et' Hk]]. exists t. split; [assumption|].
-          intros ci Hci. rewrite urls_release. now apply Hk.
+      destruct I as [Ih Il Is Ir Ii]. constructor; cbn; rewrite ?infos_release; auto; try discriminate.
+      all: try (intros it []).
+      destruct Is as [[E0 E1]|Is]; [|now right]. left. rewrite E0. auto.
     - (* add start URLs *)
       destruct (st_mode s) eqn:M; try discriminate. inversion H; subst s'; clear H.
-      constructor; cbn; try congruence; try discriminate; try apply NoDup_nil.
-      + apply add_many_nodup, inv_nodup; assumption.
-      + intros _ r' Hr' S'. exfalso. apply add_many_In in Hr'. destruct Hr' as [Hr' | [i [_ ->]]]; [|discriminate].
-        now apply (inv_starting s I M r' Hr').
-      + intros it [].
-      + intros r' Hr' C'. apply add_many_In in Hr'. destruct Hr' as [Hr' | [i [_ ->]]].
-        * destruct (inv_nothing_lost s I r' Hr' C') as [t [Et' Hk]]. exists t. split; [assumption|].
-          intros ci Hci. apply add_many_incl. now apply Hk.
-        * exfalso. destruct C' as [C'|[C'|C']]; discriminate.
+      destruct I as [Ih Il Is Ir Ii].
+      set (l := map start_info starts).
+      assert (Hl : forall i, In i l -> i = start_info (ri_url i) /\ In (ri_url i) starts).
+      { intros i Hi. apply in_map_iff in Hi. destruct Hi as [u [<- Hu]]. auto. }
+      assert (Hcov : forall u, In u starts -> In (start_info u) (infos (add_many l (st_tbl s)))).
+      { intros u Hu. rewrite infos_add_many. destruct Is as [[E0 _]|Is].
+        - assert (Hi : In (start_info u) l) by (now apply in_map).
+          destruct (added_cover l (st_tbl s) _ Hi) as [C|[i' [Hi' Eu]]].
+          + rewrite E0 in C. destruct C.
+          + apply in_or_app. right. destruct (Hl i' (added_incl _ _ _ Hi')) as [Ei' _].
+            cbn in Eu. rewrite Eu in Ei'. now rewrite <- Ei'.
+        - apply in_or_app. left. now apply Is. }
+      assert (Hlv : forall i, In i (infos (add_many l (st_tbl s))) -> ri_level i = 0 -> i = start_info (ri_url i) /\ In (ri_url i) starts).
+      { intros i Hi L0. rewrite infos_add_many in Hi. apply in_app_or in Hi. destruct Hi as [Hi|Hi]; [now apply Il|].
+        apply Hl. now apply (added_incl l (st_tbl s)). }
+      assert (Hh : forall h, In h (hosts_after host l (st_tbl s) (st_hosts s)) <->
+                     exists i, In i (infos (add_many l (st_tbl s))) /\ ri_level i = 0 /\ host (ri_url i) = h).
+      { intros h. rewrite In_hosts_after, Ih. rewrite infos_add_many. split.
+        - intros [[i [Hi R]]|[i [Hi R]]]; exists i; (split; [apply in_or_app; auto | exact R]).
+        - intros [i [Hi R]]. apply in_app_or in Hi. destruct Hi as [Hi|Hi]; [left|right]; eauto. }
+      constructor; cbn; auto.
+      intros _. split; [exact Hcov|]. intros h. rewrite Hh. unfold sp0. split.
+      + intros [i [Hi [L0 <-]]]. apply in_map. now apply Hlv.
+      + intros Hs. apply in_map_iff in Hs. destruct Hs as [u [<- Hu]]. exists (start_info u). auto.
   Qed.
 
-  Lemma reach_Inv s : reach s -> Inv s.
-  Proof. induction 1; [apply Inv_init | eapply Inv_step; eauto]. Qed.
+  Lemma reach_InvH s : reach s -> InvH s.
+  Proof. induction 1; [apply InvH_init | eapply InvH_step; eauto]. Qed.
 End Inv.
